@@ -340,6 +340,10 @@ TIES = {
     'RunActions': dict(props=['C01', 'C03', 'C05', 'C07', 'C08', 'C16'], theorems=['run_actions_order'], cxx='call_matcher::run_actions (mock.hpp)'),
     'SemRunActions': dict(props=['C01', 'C03', 'C05', 'C07'], theorems=['run_actions_sem'], cxx='call_matcher::run_actions (mock.hpp), meaning of its trace'),
     'SemNotify': dict(props=['C05', 'C06', 'C13'], theorems=['notify_sem'], cxx='lifetime_monitor::notify (lifetime.hpp), meaning of its trace'),
+    'SemRelease': dict(props=['C04'], theorems=['release_sem'], cxx='call_matcher::~call_matcher (mock.hpp), meaning of its trace'),
+    'SemDecommission': dict(props=['C04'], theorems=['decommission_sem'], cxx='call_matcher_list::decommission (mock.hpp), meaning of its trace'),
+    'SemKillw': dict(props=['C13'], theorems=['killw_sem'], cxx='deathwatched<T>::~deathwatched (lifetime.hpp), meaning of its trace'),
+    'SemReleasemon': dict(props=['C13'], theorems=['releasemon_sem'], cxx='lifetime_monitor::~lifetime_monitor (lifetime.hpp), meaning of its trace'),
     'CallMatcherDtor': dict(props=['C04'], theorems=['call_matcher_dtor_order'], cxx='call_matcher::~call_matcher (mock.hpp)'),
     'MockDestroyed': dict(props=['C04'], theorems=['mock_destroyed_order'], cxx='call_matcher::mock_destroyed (mock.hpp)'),
     'IsUnfulfilled': dict(props=['C04'], theorems=['is_unfulfilled_tie'], cxx='call_matcher::is_unfulfilled (mock.hpp)'),
